@@ -25,3 +25,16 @@ package persistent
 //@   nofail
 //@   loop 1 invariant iff(osnonempty(s), osnonempty(currentS))
 //@   ensures[C51] iff(result, !osnonempty(s))
+
+// A new set (Clone) has the given parent and no items of its own: by the model above it contains exactly what
+// the parent contains.
+//@ func NewOrderedSet
+//@   props C51
+//@   nofail
+//@   ensures[C51] result != nil && result.Parent == parent && result.items == nil
+//@ func (*OrderedSet[T]).Clone
+//@   props C51
+//@   nofail
+//@   ensures[C51] result != nil && result.Parent == s && result.items == nil
+// ... stated as a lemma over the model: a set without own items answers as its parent does
+//@ theorem[C51] T_clone_answers_as_parent(c, p, x) = c != 0 && osparent(c) == p && ositems(c) == 0 ==> iff(osmember(c, x), osmember(p, x)) && iff(osnonempty(c), osnonempty(p))
